@@ -317,7 +317,7 @@ impl ProjectGenerator {
 
     /// Add a Rust crate dependency from `import rust::crate_name`
     /// Uses a default version mapping for common crates, otherwise uses latest
-    pub fn add_rust_crate(&mut self, crate_name: &str) {
+    pub fn add_rust_crate(&mut self, crate_name: &str) -> Result<(), UnknownCrateError> {
         // Common crate versions (maintain a mapping of known-good versions)
         let version = match crate_name {
             "serde" => Some(r#"{ version = "1.0", features = ["derive"] }"#.to_string()),
@@ -341,10 +341,15 @@ impl ProjectGenerator {
             "futures" => Some(r#""0.3""#.to_string()),
             "bytes" => Some(r#""1.0""#.to_string()),
             "itertools" => Some(r#""0.12""#.to_string()),
-            // Use latest for unknown crates
-            _ => None,
+            // Strict dependency policy: no known-good version, no dependency (never `*`)
+            _ => {
+                return Err(UnknownCrateError {
+                    crate_name: crate_name.to_string(),
+                });
+            }
         };
         self.rust_crate_deps.insert(crate_name.to_string(), version);
+        Ok(())
     }
 
     /// Add a Rust crate with a specific version spec
